@@ -146,12 +146,14 @@ func main() {
 	timeout := flag.Int("timeout", 10, "")
 	dump := flag.Bool("dump", false, "")
 	quiet := flag.Bool("q", false, "print failures only")
+	prop := flag.String("prop", "", "use only the clauses that serve this property (as the check does)")
 	flag.Parse()
 	en, err := loadEngine(*repo, *spec)
 	if err != nil {
 		fmt.Fprintln(os.Stderr, "govc:", err)
 		os.Exit(2)
 	}
+	en.activeProp = *prop
 	var keys []string
 	if *fn != "" {
 		keys = strings.Split(*fn, ",")
